@@ -137,10 +137,13 @@ func arraysRun[T num, A arr[T, A]](k kit[T, A], rc *RunCtx, o *Outcome) {
 	guardBefore := w.Bool(30)
 
 	newRoot := func() *arrView[T, A] {
-		rank := 1 + w.Choose(4)
+		rank := sizeDraw(w, 4, 6)
 		dims := make([]int, rank)
 		for d := range dims {
-			dims[d] = 1 + w.Choose(6)
+			dims[d] = sizeDraw(w, 6, 17)
+			if rank > 4 && dims[d] > 5 {
+				dims[d] = 1 + dims[d]%5
+			}
 			if w.Choose(8) == 7 {
 				dims[d] = 1
 			}
